@@ -235,7 +235,7 @@ func runStopScenario(c *Ctx, prop string, h *history, evs [][]byte, idx []int, f
 		if sc.cause == "connect-fail" {
 			cf = vh.I(1)
 		}
-		req := vh.L(vh.A("conn_outcomes"), vh.L(vh.I(1), vh.I(1), vh.I(0)), vh.L(bits...), term, vh.L(vs...), cancelV, cf, vh.I(0), badAt)
+		req := vh.L(vh.A("conn_outcomes"), vh.L(vh.I(1), vh.I(1), vh.I(0), vh.I(1)), vh.L(bits...), term, vh.L(vs...), cancelV, cf, vh.I(0), badAt)
 		set := c.M.Call(req)
 		obs := []string{"nil", "nil", "0", "closed"}
 		if !res.returned {
